@@ -895,71 +895,140 @@ def rule_shm_sentinel(ctx, cfg, F):
     R.count("sentinel_pairs[%s]" % cfg)
 
 
+def _leaves(f, operand, depth=0):
+    """flatten a value into its scalar parts: [(type, operand)], looking through single-definition struct/tuple aggregates and whole-value copies"""
+    if operand["k"] == "c":
+        return [(operand.get("t", "const"), operand)]
+    pl = operand["pl"]
+    l = pl["l"]
+    proj = [e["f"] for e in pl.get("p", []) if isinstance(e, dict) and "f" in e]
+    ds = [d for d in f.defs().get(l, []) if not f.is_cleanup(d[0]) and d[1] is not None and not d[2]["lhs"].get("p")]
+    if depth < 6 and len(ds) == 1:
+        rv = ds[0][2]["rv"]
+        if rv["r"] == "agg" and (rv["kind"].get("adt") or "tuple" in rv["kind"]) and not (1 <= l <= f.argc):
+            elems = rv["a"]
+            if proj:
+                if proj[0] < len(elems):
+                    sub = dict(elems[proj[0]])
+                    if sub["k"] != "c" and len(proj) > 1:
+                        sub = {"k": sub["k"], "pl": {"l": sub["pl"]["l"], "p": list(sub["pl"].get("p", [])) + [{"f": i, "n": str(i), "t": ""} for i in proj[1:]]}}
+                    return _leaves(f, sub, depth + 1)
+            else:
+                out = []
+                for e in elems:
+                    out += _leaves(f, e, depth + 1)
+                return out
+        if rv["r"] in ("use", "cast") and not proj and rv["a"][0]["k"] != "c" and not rv["a"][0]["pl"].get("p") and not (1 <= l <= f.argc):
+            return _leaves(f, rv["a"][0], depth + 1)
+    ty = f.local_ty(l)
+    if proj:
+        ty = next((e.get("t") or "" for e in reversed(pl["p"]) if isinstance(e, dict) and "f" in e), "")
+    return [(ty, operand)]
+
+
+def shm_constructions(F):
+    """every place where a unix OsIpcSharedMemory value is put together: (function, block, ptr operand, length operand, store operand).
+    Calls of a constructor function that merely stores its parameters count as constructions at the call site."""
+    out = []
+    ctors = {}
+    for f in F.fns.values():
+        if not f.path.startswith("platform::unix"):
+            continue
+        aggs = [(b, st) for b in f.live_blocks() for st in f.stmts(b) if st["s"] == "assign" and st["rv"]["r"] == "agg" and (st["rv"]["kind"].get("adt") or "") == "platform::unix::OsIpcSharedMemory"]
+        if not aggs:
+            continue
+        tr = Tracer(f)
+        for b, st in aggs:
+            lv = _leaves(f, {"k": "mv", "pl": {"l": st["lhs"]["l"]}})
+            ptr = [o for ty, o in lv if ty.startswith("*mut u8") or ty.startswith("*const u8")]
+            ln = [o for ty, o in lv if ty in ("usize", "u64")]
+            sto = [o for ty, o in lv if "BackingStore" in ty or ty in ("i32",)]
+            if len(ptr) != 1 or len(ln) != 1 or len(sto) != 1:
+                out.append((f, b, None, None, None))
+                continue
+            # a pure constructor: every part is a parameter (or a field of one)
+            allp = all(o["k"] != "c" and all(r.kind == "param" for r in tr.roots_of_operand(o)) and tr.roots_of_operand(o) for o in (ptr[0], ln[0], sto[0]))
+            if allp and f.argc >= 2 and f.kind != "Closure" and not f.impl_trait:
+                ctors[strip_generics(f.path)] = (f, ptr[0], ln[0], sto[0])
+            else:
+                out.append((f, b, ptr[0], ln[0], sto[0]))
+    # call sites of the pure constructors: map the constructor's parts back to the actual arguments
+    for f in F.fns.values():
+        for b, t in f.calls():
+            nm = strip_generics(callee_name(t))
+            if nm not in ctors:
+                continue
+            cf, cp, cl, cs = ctors[nm]
+            ctr = Tracer(cf)
+
+            def actual(op):
+                r = next(iter(ctr.roots_of_operand(op)))
+                a = t["args"][r.id - 1]
+                if a["k"] == "c" or not r.field_idx():
+                    return a
+                return {"k": a["k"], "pl": {"l": a["pl"]["l"], "p": list(a["pl"].get("p", [])) + [{"f": i, "n": str(i), "t": ""} for i in r.field_idx()]}}
+            out.append((f, b, actual(cp), actual(cl), actual(cs)))
+    return out, ctors
+
+
 def rule_shm_couple(ctx, cfg, F):
     R = ctx.rule("SHM-COUPLE", "every construction of the unix OsIpcSharedMemory gets a pointer from map_file on the same BackingStore it moves into the struct, and a length that is the length passed "
                  "to / returned by that map_file; Clone builds a fresh store (duplicated descriptor) and a fresh mapping of self.length, never reuses self.ptr")
-    ctor = F.fns.get("platform::unix::OsIpcSharedMemory::from_raw_parts")
-    if not ctor:
-        R.violate("anchor-missing:shm-ctor", "OsIpcSharedMemory::from_raw_parts not found", config=cfg)
+    cons, ctors = shm_constructions(F)
+    if not cons:
+        R.violate("anchor-missing:shm-ctor", "no construction of platform::unix::OsIpcSharedMemory found", config=cfg)
         return
-    # the constructor stores its parameters in order
-    aggs = [st for b in ctor.live_blocks() for st in ctor.stmts(b) if st["s"] == "assign" and st["rv"]["r"] == "agg" and (st["rv"]["kind"].get("adt") or "").endswith("OsIpcSharedMemory")]
-    trc = Tracer(ctor)
-    if len(aggs) == 1 and [sorted((r.kind, r.id) for r in trc.roots_of_operand(a)) for a in aggs[0]["rv"]["a"]] == [[("param", 1)], [("param", 2)], [("param", 3)]]:
-        R.ok("from_raw_parts stores (ptr, length, store) unchanged", ctor.loc(0), cfg)
-    else:
-        R.violate("platform::unix::OsIpcSharedMemory::from_raw_parts:field-mixup", "the constructor does not store its three parameters into (ptr, length, store) in order", ctor.path, ctor.loc(0), config=cfg)
+    for nm in sorted(ctors):
+        R.ok("%s stores its parameters as (ptr, length, store)" % nm, ctors[nm][0].loc(0), cfg)
     n = 0
-    for f in sorted(F.fns.values(), key=lambda x: x.path):
-        tr = None
-        ex = None
-        for b, t in f.calls():
-            if strip_generics(callee_name(t)) != "platform::unix::OsIpcSharedMemory::from_raw_parts":
-                continue
-            n += 1
-            tr = tr or Tracer(f)
-            ex = ex or Expr(f)
-            key = strip_generics(f.path)
-            proots = tr.roots_of_operand(t["args"][0])
-            maps = [r for r in proots if r.kind == "call" and r.id.endswith("::map_file")]
-            if len(proots) != 1 or not maps or maps[0].field_idx()[:1] != (0,):
-                R.violate("%s:pointer-origin" % key, "the mapping pointer does not come from map_file().0 (%s)" % sorted(map(repr, proots)), f.path, f.loc(b), config=cfg)
-                continue
-            mt = f.term(maps[0].block)
-            store_of_map = _root_local(f, tr, mt["args"][0])
-            store_moved = _root_local(f, tr, t["args"][2])
-            rm_ = {(r.kind, r.id, r.block) for r in tr.roots_of_operand(mt["args"][0])}
-            rs_ = {(r.kind, r.id, r.block) for r in tr.roots_of_operand(t["args"][2])}
-            same_origin = len(rm_) == 1 and rm_ == rs_ and next(iter(rm_))[0] == "call"     # one creation site (call@block) feeds both
-            if store_of_map != store_moved and not same_origin:
-                R.violate("%s:store-mismatch" % key, "the pointer was mapped from a different BackingStore than the one moved into the region", f.path, f.loc(b), config=cfg)
-                continue
-            # length: Some(x) passed to map_file with x == length arg; or map_file().1
-            le = expr_strip_blocks(ex.of_operand(t["args"][1]))
-            ml = expr_strip_blocks(ex.of_operand(mt["args"][1]))
-            ok = False
-            if ml[0] == "agg" and ml[1].endswith("Option::Some") and ml[2][0] == le:
-                ok = True
-            lroots = tr.roots_of_operand(t["args"][1])
-            if any(r.kind == "call" and r.block == maps[0].block and r.field_idx()[:1] == (1,) for r in lroots) and len(lroots) == 1:
-                ok = True
-            if ok:
-                R.ok("%s: (ptr, len, store) come from one map_file call on the stored BackingStore" % key, f.loc(b), cfg)
+    for (f, b, pop, lop, sop) in sorted(cons, key=lambda x: (x[0].path, x[1])):
+        n += 1
+        key = strip_generics(f.path)
+        if pop is None:
+            R.violate("%s:construction-shape" % key, "a construction of OsIpcSharedMemory does not have exactly one pointer, one length and one store part", f.path, f.loc(b), config=cfg)
+            continue
+        tr = Tracer(f)
+        ex = Expr(f)
+        proots = tr.roots_of_operand(pop)
+        maps = [r for r in proots if r.kind == "call" and r.id.endswith("::map_file")]
+        if len(proots) != 1 or not maps or maps[0].field_idx()[:1] != (0,):
+            R.violate("%s:pointer-origin" % key, "the mapping pointer does not come from map_file().0 (%s)" % sorted(map(repr, proots)), f.path, f.loc(b), config=cfg)
+            continue
+        mt = f.term(maps[0].block)
+        store_of_map = _root_local(f, tr, mt["args"][0])
+        store_moved = _root_local(f, tr, sop)
+        rm_ = {(r.kind, r.id, r.block) for r in tr.roots_of_operand(mt["args"][0])}
+        rs_ = {(r.kind, r.id, r.block) for r in tr.roots_of_operand(sop)}
+        same_origin = len(rm_) == 1 and rm_ == rs_ and next(iter(rm_))[0] == "call"     # one creation site (call@block) feeds both
+        if store_of_map != store_moved and not same_origin:
+            R.violate("%s:store-mismatch" % key, "the pointer was mapped from a different BackingStore than the one moved into the region", f.path, f.loc(b), config=cfg)
+            continue
+        # length: Some(x) passed to map_file with x == length arg; or map_file().1
+        le = expr_strip_blocks(ex.of_operand(lop))
+        ml = expr_strip_blocks(ex.of_operand(mt["args"][1]))
+        ok = False
+        if ml[0] == "agg" and ml[1].endswith("Option::Some") and ml[2][0] == le:
+            ok = True
+        lroots = tr.roots_of_operand(lop)
+        if any(r.kind == "call" and r.block == maps[0].block and r.field_idx()[:1] == (1,) for r in lroots) and len(lroots) == 1:
+            ok = True
+        if ok:
+            R.ok("%s: (ptr, len, store) come from one map_file call on the stored BackingStore" % key, f.loc(b), cfg)
+        else:
+            R.violate("%s:length-mismatch" % key, "the region's length (%s) is not the length mapped (%s)" % (expr_str(ex.of_operand(lop)), expr_str(ex.of_operand(mt["args"][1]))), f.path, f.loc(b), config=cfg)
+        if f.impl_trait == "std::clone::Clone":
+            # fresh store from a duplicated descriptor
+            sroots = tr.roots_of_operand(sop)
+            fresh = any(r.kind == "call" and r.id.endswith("BackingStore::from_fd") for r in sroots)
+            dupd = False
+            for r in sroots:
+                if r.kind == "call" and r.id.endswith("BackingStore::from_fd"):
+                    a = f.term(r.block)["args"][0]
+                    dupd = any(x.kind == "call" and x.id in ("libc::fcntl", "libc::dup", "libc::dup3") for x in tr.roots_of_operand(a))
+            if fresh and dupd:
+                R.ok("Clone maps a fresh store built from a duplicated descriptor", f.loc(b), cfg)
             else:
-                R.violate("%s:length-mismatch" % key, "the region's length (%s) is not the length mapped (%s)" % (expr_str(ex.of_operand(t["args"][1])), expr_str(ex.of_operand(mt["args"][1]))), f.path, f.loc(b), config=cfg)
-            if f.impl_trait == "std::clone::Clone":
-                # fresh store from a duplicated descriptor
-                sroots = tr.roots(store_moved)
-                fresh = any(r.kind == "call" and r.id.endswith("BackingStore::from_fd") for r in sroots)
-                dupd = False
-                for r in sroots:
-                    if r.kind == "call" and r.id.endswith("BackingStore::from_fd"):
-                        a = f.term(r.block)["args"][0]
-                        dupd = any(x.kind == "call" and x.id in ("libc::fcntl", "libc::dup", "libc::dup3") for x in tr.roots_of_operand(a))
-                if fresh and dupd:
-                    R.ok("Clone maps a fresh store built from a duplicated descriptor", f.loc(b), cfg)
-                else:
-                    R.violate("%s:clone-shares-store" % key, "Clone does not build its own BackingStore from a duplicated descriptor", f.path, f.loc(b), config=cfg)
+                R.violate("%s:clone-shares-store" % key, "Clone does not build its own BackingStore from a duplicated descriptor", f.path, f.loc(b), config=cfg)
     R.count("constructions[%s]" % cfg, n)
 
 
@@ -1065,9 +1134,28 @@ def fill_cover(f, L):
     return False, "fill segments do not add up to [0, length): %s" % [(" + ".join("%s*%d" % (expr_str(e), k) for e, k in s[1]) or "0", "%s*%d" % (expr_str(s[2][0]), s[2][1])) for s in segs]
 
 
+def _norm_mapped_len(F, e):
+    """`map_file(store, Some(x)).1` is x: map_file returns the length it was asked to map (checked on map_file's body: its second result component
+    derives only from the Some payload of its length parameter, or from fstat when that is None)"""
+    if e[0] == "field" and e[2] == 1 and e[1][0] == "call" and e[1][1].endswith("::map_file") and len(e[1][2]) == 2:
+        a = e[1][2][1]
+        if a[0] == "agg" and a[1].endswith("Option::Some") and a[2]:
+            mf = next((g for g in F.fns.values() if strip_generics(g.path).endswith("BackingStore::map_file")), None)
+            if mf is not None:
+                tr = Tracer(mf)
+                roots = tr.roots(0, (("f", 1, ""),))
+                if roots and all((r.kind == "param" and r.id == 2) or (r.kind == "call" and ("fstat" in r.id or "unwrap_or" in r.id or "file_size" in r.id or "st_size" in repr(r))) or r.kind in ("const", "local", "op", "agg")
+                                 for r in roots) and (any(r.kind == "param" and r.id == 2 for r in roots) or any(
+                                     r.kind == "call" and "unwrap_or" in r.id and r.block is not None and any(x.kind == "param" and x.id == 2 for x in tr.roots_of_operand(mf.term(r.block)["args"][0]))
+                                     for r in roots)):
+                    return a[2][0]
+    return e
+
+
 def rule_shm_len(ctx, cfg, F):
     R = ctx.rule("SHM-LEN", "in from_byte / from_bytes one length value feeds BackingStore::new (hence ftruncate), map_file(Some(_)), the fill and the region's length")
     n = 0
+    cons, _ctors = shm_constructions(F)
     for name in ("platform::unix::OsIpcSharedMemory::from_byte", "platform::unix::OsIpcSharedMemory::from_bytes"):
         f = F.fns.get(name)
         if not f:
@@ -1085,8 +1173,10 @@ def rule_shm_len(ctx, cfg, F):
                 vals["map"] = e[2][0] if e[0] == "agg" and e[1].endswith("Some") else e
             elif nm in ("std::slice::from_raw_parts_mut", "std::ptr::copy_nonoverlapping", "std::ptr::write_bytes"):
                 pass        # the fill is decided by fill_cover below
-            elif nm.endswith("OsIpcSharedMemory::from_raw_parts"):
-                vals["len"] = expr_strip_blocks(ex.of_operand(t["args"][1]))
+        # the region's length: the length part of the construction in this function (constructor call or struct literal)
+        for (cf, cb, pop, lop, sop) in cons:
+            if cf is f and lop is not None:
+                vals["len"] = _norm_mapped_len(F, expr_strip_blocks(ex.of_operand(lop)))
         if "len" in vals:
             okc, why = fill_cover(f, vals["len"])
             if okc:
